@@ -157,17 +157,6 @@ Definition sgnQ (neg : bool) : Q := if neg then (-1 # 1)%Q else 1%Q.
 Definition dval (x : dbl) : Q := (sgnQ (dneg x) * inject_Z (dman x) * (2 # 1) ^ (dexp x))%Q.
 Definition decval (r : bool * Z * Z) : Q :=
   let '(neg, M, k) := r in (sgnQ neg * inject_Z M * (10 # 1) ^ k)%Q.
-Definition tol : Q := (1 # 1000000000)%Q.
-(* math.isclose(r, x, rel_tol=1e-9, abs_tol=0) on exact values *)
-Definition Qclose (r x : Q) : Prop :=
-  (Qabs (r - x) <= tol * Qabs r \/ Qabs (r - x) <= tol * Qabs x)%Q.
-Definition Qclose_b (r x : Q) : bool :=
-  orb (Qle_bool (Qabs (r - x)) (tol * Qabs r)) (Qle_bool (Qabs (r - x)) (tol * Qabs x)).
-Lemma Qclose_b_false : forall r x, Qclose_b r x = false -> ~ Qclose r x.
-Proof.
-  intros r x H [C|C]; apply Qle_bool_iff in C; unfold Qclose_b in H; rewrite C in H;
-    [discriminate | rewrite orb_true_r in H; discriminate].
-Qed.
 
 (* ------------------------------------------------------------------------------------------ *)
 (* 4. decimal digit strings *)
@@ -1178,4 +1167,1174 @@ Proof.
                   == sgnQ (dneg x) * (inject_Z D * p10 (- p) - dabs x))%Q) by (unfold p10; ring).
     rewrite Eq, sgnQ_abs. apply Qabs_Qle_condition.
     exact (fixed_digits_spec (d_num x) (d_den x) Dp (dabs x) Fx p).
+Qed.
+
+(* ------------------------------------------------------------------------------------------ *)
+(* 10. str.strip and the first word; what a successful scan says about the characters *)
+
+Lemma lstrip_ws_spec : forall s, exists pre, s = pre ++ lstrip_ws s /\ all_ws pre = true /\
+  match lstrip_ws s with String a _ => is_ws a = false | EmptyString => True end.
+Proof.
+  induction s as [|a s IH].
+  - exists "". cbn. auto.
+  - cbn [lstrip_ws]. destruct (is_ws a) eqn:E.
+    + destruct IH as (pre & E1 & E2 & E3). exists (String a pre). cbn [append all_ws]. rewrite <- E1, E, E2. auto.
+    + exists "". cbn. auto.
+Qed.
+
+Lemma rstrip_ws_spec : forall s, exists suf, s = rstrip_ws s ++ suf /\ all_ws suf = true.
+Proof.
+  induction s as [|a s IH].
+  - exists "". auto.
+  - destruct IH as (suf & E1 & E2). cbn [rstrip_ws].
+    destruct (andb (is_ws a) (String.eqb (rstrip_ws s) "")) eqn:E.
+    + apply andb_true_iff in E. destruct E as [Ea Er]. apply String.eqb_eq in Er.
+      exists (String a suf). cbn [append all_ws]. rewrite Ea, E2. rewrite Er in E1. cbn in E1. subst s. auto.
+    + exists suf. cbn [append]. rewrite <- E1. auto.
+Qed.
+
+Lemma lstrip_all_ws_app : forall pre r, all_ws pre = true -> lstrip_ws (pre ++ r) = lstrip_ws r.
+Proof.
+  induction pre as [|a pre IH]; intros r H; [reflexivity|].
+  cbn in H. apply andb_true_iff in H. destruct H as [Ha Hp]. cbn [append lstrip_ws]. rewrite Ha. now apply IH.
+Qed.
+
+Lemma first_word_strip : forall t tail,
+  strip t <> "" -> no_ws (strip t) = true -> (tail = "" \/ starts_ws tail = true) ->
+  first_word (t ++ tail) = strip t.
+Proof.
+  intros t tail N W T. unfold first_word, strip in *.
+  destruct (lstrip_ws_spec t) as (pre & E1 & E2 & _).
+  destruct (rstrip_ws_spec (lstrip_ws t)) as (suf & E3 & E4).
+  set (core := rstrip_ws (lstrip_ws t)) in *.
+  rewrite E1 at 1. rewrite sapp_assoc, lstrip_all_ws_app by exact E2.
+  rewrite E3, sapp_assoc.
+  destruct core as [|c core'] eqn:EC; [congruence|].
+  cbn in W. apply andb_true_iff in W. destruct W as [Wc W']. apply negb_true_iff in Wc.
+  cbn [append lstrip_ws]. rewrite Wc.
+  change (String c (core' ++ suf ++ tail)) with (String c core' ++ (suf ++ tail)).
+  apply take_word_app.
+  - cbn. now rewrite Wc, W'.
+  - destruct suf as [|b suf']; [exact T|]. right. cbn in E4. apply andb_true_iff in E4. cbn. apply E4.
+Qed.
+
+Lemma span_digits_spec : forall s d t, span_digits s = (d, t) -> s = d ++ t /\ all_digits d = true.
+Proof.
+  induction s as [|a s IH]; intros d t H; cbn in H.
+  - inversion H. auto.
+  - destruct (is_digit a) eqn:E.
+    + destruct (span_digits s) as [d' t'] eqn:S. inversion H; subst. destruct (IH _ _ eq_refl) as [E1 E2].
+      cbn. rewrite E, E2, <- E1. auto.
+    + inversion H; subst. auto.
+Qed.
+
+Lemma sign_not_ws : forall a, is_sign a = true -> is_ws a = false.
+Proof.
+  intros a H. unfold is_sign in H. apply orb_true_iff in H.
+  destruct H as [H|H]; apply Ascii.eqb_eq in H; subst; reflexivity.
+Qed.
+
+Lemma take_sign_spec : forall s sg r, take_sign s = (sg, r) ->
+  s = sign_str sg ++ r /\ match sg with Some a => is_sign a = true | None => True end.
+Proof.
+  intros [|a s] sg r H; cbn in H.
+  - inversion H; subst. auto.
+  - destruct (is_sign a) eqn:E; inversion H; subst; cbn; auto.
+Qed.
+
+Lemma no_ws_sign_str : forall sg, match sg with Some a => is_sign a = true | None => True end ->
+  no_ws (sign_str sg) = true.
+Proof. intros [a|] H; cbn; [|reflexivity]. now rewrite (sign_not_ws a H). Qed.
+
+(* a text the scanner accepts has no white space in it and is not empty *)
+Lemma scan_no_ws : forall letters s sc,
+  (forall a, letters a = true -> is_ws a = false) ->
+  scan_number letters s = Some sc -> no_ws s = true /\ s <> "".
+Proof.
+  intros letters s sc HL H. unfold scan_number in H.
+  destruct (take_sign s) as [sg r0] eqn:TS. destruct (take_sign_spec _ _ _ TS) as [Es Hsg].
+  destruct (span_digits r0) as [d1 r1] eqn:S1. destruct (span_digits_spec _ _ _ S1) as [E1 A1].
+  assert (X : exists dot d2 r2, r1 = dot ++ d2 ++ r2 /\ no_ws dot = true /\ all_digits d2 = true /\
+     (let '(dt, d2', r2') :=
+        match r1 with
+        | String "."%char t => let (d2, r2) := span_digits t in (true, d2, r2)
+        | _ => (false, "", r1)
+        end in (d2', r2') = (d2, r2))).
+  { destruct r1 as [|c t].
+    - exists "", "", "". cbn. auto.
+    - destruct (Ascii.eqb c ".") eqn:Ec.
+      + apply Ascii.eqb_eq in Ec. subst c. destruct (span_digits t) as [d2 r2] eqn:S2.
+        destruct (span_digits_spec _ _ _ S2) as [E2 A2]. exists ".", d2, r2. cbn. rewrite <- E2. auto.
+      + exists "", "", (String c t). split; [reflexivity|]. split; [reflexivity|]. split; [reflexivity|].
+        destruct c as [[] [] [] [] [] [] [] []]; try reflexivity. discriminate. }
+  destruct X as (dot & d2 & r2 & Er1 & Wdot & A2 & X).
+  destruct (match r1 with
+            | String "."%char t => let (d2, r2) := span_digits t in (true, d2, r2)
+            | _ => (false, "", r1)
+            end) as [[dt d2'] r2'] eqn:M.
+  inversion X; subst d2' r2'. clear X.
+  destruct (andb (String.eqb d1 "") (String.eqb d2 "")) eqn:Emp; [discriminate|].
+  assert (Pre : no_ws (sign_str sg ++ d1 ++ dot ++ d2) = true).
+  { rewrite !no_ws_app, no_ws_sign_str, Wdot, !all_digits_no_ws by assumption. reflexivity. }
+  assert (Ne : sign_str sg ++ d1 ++ dot ++ d2 <> "").
+  { intros C. apply (f_equal String.length) in C. rewrite !length_app_s in C. cbn in C.
+    destruct d1; [|cbn in C; lia]. destruct d2; [|cbn in C; lia]. cbn in Emp. discriminate. }
+  assert (Full : s = (sign_str sg ++ d1 ++ dot ++ d2) ++ r2).
+  { rewrite Es, E1, Er1. rewrite !sapp_assoc. reflexivity. }
+  assert (Done : no_ws r2 = true -> no_ws s = true /\ s <> "").
+  { intros W. split.
+    - rewrite Full, no_ws_app, Pre, W. reflexivity.
+    - rewrite Full. intros C. apply Ne. destruct (sign_str sg ++ d1 ++ dot ++ d2); [reflexivity | discriminate]. }
+  apply Done. clear Done.
+  destruct r2 as [|a t]; [reflexivity|].
+  destruct (letters a) eqn:La.
+  - destruct (take_sign t) as [es t1] eqn:TS2. destruct (take_sign_spec _ _ _ TS2) as [Et Hes].
+    destruct (span_digits t1) as [ed t2] eqn:S3. destruct (span_digits_spec _ _ _ S3) as [E3 A3].
+    destruct (andb (negb (String.eqb ed "")) (String.eqb t2 "")) eqn:C; [|discriminate].
+    apply andb_true_iff in C. destruct C as [_ C]. apply String.eqb_eq in C. subst t2.
+    cbn [no_ws]. rewrite (HL a La). cbn [negb andb].
+    rewrite Et, E3, !no_ws_app, no_ws_sign_str, all_digits_no_ws by assumption. reflexivity.
+  - destruct (is_sign a) eqn:Sa; [|discriminate].
+    destruct (span_digits t) as [ed t2] eqn:S3. destruct (span_digits_spec _ _ _ S3) as [E3 A3].
+    destruct (andb (negb (String.eqb ed "")) (String.eqb t2 "")) eqn:C; [|discriminate].
+    apply andb_true_iff in C. destruct C as [_ C]. apply String.eqb_eq in C. subst t2.
+    cbn [no_ws]. rewrite (sign_not_ws a Sa). cbn [negb andb].
+    rewrite E3, no_ws_app, all_digits_no_ws by assumption. reflexivity.
+Qed.
+
+Lemma letter_eE_not_ws : forall a, letter_eE a = true -> is_ws a = false.
+Proof.
+  intros a H. unfold letter_eE in H. apply orb_true_iff in H.
+  destruct H as [H|H]; apply Ascii.eqb_eq in H; subst; reflexivity.
+Qed.
+
+Lemma letter_eE_eEdD : forall a, letter_eE a = true -> letter_eEdD a = true.
+Proof. intros a H. unfold letter_eEdD. now rewrite H. Qed.
+
+Lemma sign_not_dD : forall a, is_sign a = true -> letter_eEdD a = false.
+Proof.
+  intros a H. unfold is_sign in H. apply orb_true_iff in H.
+  destruct H as [H|H]; apply Ascii.eqb_eq in H; subst; reflexivity.
+Qed.
+
+(* the Fortran reader reads what Python's float() reads, in the same way *)
+Lemma scan_eE_eEdD : forall s sc, scan_number letter_eE s = Some sc -> scan_number letter_eEdD s = Some sc.
+Proof.
+  intros s sc H. unfold scan_number in *.
+  destruct (take_sign s) as [sg r0]. destruct (span_digits r0) as [d1 r1].
+  destruct (match r1 with
+            | String "."%char t => let (d2, r2) := span_digits t in (true, d2, r2)
+            | _ => (false, "", r1)
+            end) as [[dt d2] r2].
+  destruct (andb (String.eqb d1 "") (String.eqb d2 "")); [discriminate|].
+  destruct r2 as [|a t]; [exact H|].
+  destruct (letter_eE a) eqn:La.
+  - rewrite (letter_eE_eEdD a La). exact H.
+  - destruct (is_sign a) eqn:Sa; [|discriminate]. rewrite (sign_not_dD a Sa). exact H.
+Qed.
+
+Lemma fortran_scan_read : forall s sc, fortran_scan s = Some sc ->
+  read_number s = Some (scan_neg sc, scan_mant sc, scan_k sc) /\ no_ws s = true /\ s <> "".
+Proof.
+  intros s sc H. unfold fortran_scan in H.
+  destruct (scan_number letter_eE s) as [sc'|] eqn:S; [|discriminate].
+  assert (sc' = sc).
+  { destruct (s_eletter sc'); [inversion H; reflexivity|].
+    destruct (s_esign sc'); [|inversion H; reflexivity].
+    destruct (andb (s_dot sc') (String.eqb (s_d2 sc') "")); [discriminate | inversion H; reflexivity]. }
+  subst sc'. split.
+  - unfold read_number. now rewrite (scan_eE_eEdD s sc S).
+  - exact (scan_no_ws letter_eE s sc letter_eE_not_ws S).
+Qed.
+
+(* ------------------------------------------------------------------------------------------ *)
+(* 11. float(text): the nearest double; a 17 digit decimal of a double is read back as that double *)
+
+Definition p2 (z : Z) : Q := ((2 # 1) ^ z)%Q.
+
+Lemma p2_pos : forall z, (0 < p2 z)%Q.
+Proof. intros. apply Qpower_0_lt. reflexivity. Qed.
+Lemma p2_plus : forall a b, (p2 (a + b) == p2 a * p2 b)%Q.
+Proof. intros. apply Qpower_plus. discriminate. Qed.
+Lemma p2_inj : forall k, 0 <= k -> (p2 k == inject_Z (2 ^ k))%Q.
+Proof. intros k H. unfold p2. apply p2_inject. exact H. Qed.
+Lemma p2_inv : forall a, (p2 a * p2 (- a) == 1)%Q.
+Proof. intros a. rewrite <- p2_plus. rewrite Z.add_opp_diag_r. reflexivity. Qed.
+Lemma p2_succ : forall a, (p2 (a + 1) == (2 # 1) * p2 a)%Q.
+Proof. intros a. rewrite p2_plus. change (p2 1) with (2 # 1)%Q. ring. Qed.
+Lemma p2_ge1 : forall k, 0 <= k -> (1 <= p2 k)%Q.
+Proof.
+  intros k H. rewrite (p2_inj k H). pose proof (Z.pow_pos_nonneg 2 k ltac:(lia) H).
+  unfold Qle. cbn. lia.
+Qed.
+Lemma p2_mono : forall a b, a <= b -> (p2 a <= p2 b)%Q.
+Proof.
+  intros a b H. replace b with (a + (b - a)) by lia. rewrite p2_plus.
+  pose proof (p2_ge1 (b - a) ltac:(lia)). pose proof (p2_pos a). nra.
+Qed.
+
+Lemma log2_bounds_Q : forall n, 0 < n ->
+  (p2 (Z.log2 n) <= inject_Z n /\ inject_Z n < (2 # 1) * p2 (Z.log2 n))%Q.
+Proof.
+  intros n H. pose proof (Z.log2_spec n H) as [L U]. pose proof (Z.log2_nonneg n) as NN.
+  rewrite (p2_inj _ NN). rewrite Z.pow_succ_r in U by exact NN.
+  split; [rewrite <- Zle_Qle; exact L|].
+  setoid_replace ((2 # 1) * inject_Z (2 ^ Z.log2 n))%Q with (inject_Z (2 * 2 ^ Z.log2 n))
+    by (rewrite inject_Z_mult; reflexivity).
+  rewrite <- Zlt_Qlt. exact U.
+Qed.
+
+Section Rounding.
+  Variables n d : Z.
+  Hypothesis Hn : 0 < n.
+  Hypothesis Hd : 0 < d.
+  Variable t : Q.
+  Hypothesis Ht : (t * inject_Z d == inject_Z n)%Q.
+
+  Let Dq : (0 < inject_Z d)%Q.
+  Proof. apply inj_pos. exact Hd. Qed.
+
+  Lemma t_pos : (0 < t)%Q.
+  Proof. exact (x_pos n d Hn Hd t Ht). Qed.
+
+  (* floor(log2 t) *)
+  Lemma flog2_q_spec : (p2 (flog2_q n d) <= t /\ t < p2 (flog2_q n d + 1))%Q.
+  Proof.
+    unfold flog2_q. set (L := Z.log2 n - Z.log2 d).
+    destruct (log2_bounds_Q n Hn) as [N1 N2]. destruct (log2_bounds_Q d Hd) as [D1 D2].
+    assert (PL : (p2 (Z.log2 n) == p2 L * p2 (Z.log2 d))%Q).
+    { rewrite <- p2_plus. unfold L. replace (Z.log2 n - Z.log2 d + Z.log2 d) with (Z.log2 n) by lia. reflexivity. }
+    pose proof (p2_pos L) as PLp. pose proof (p2_pos (Z.log2 d)) as PDp. pose proof t_pos as Tp.
+    rewrite <- Ht in N1, N2.
+    set (A := p2 L) in *. set (B := p2 (Z.log2 d)) in *. set (Dd := inject_Z d) in *.
+    assert (Up : (t < (2 # 1) * A)%Q).
+    { rewrite PL in N2. assert (t * Dd < (2 # 1) * A * Dd)%Q by nra. nra. }
+    assert (Lo : (A < (2 # 1) * t)%Q).
+    { rewrite PL in N1. assert (A * Dd < (2 # 1) * t * Dd)%Q by nra. nra. }
+    (* the test decides  2^L <= t *)
+    assert (Tst : if (if 0 <=? L then d * 2 ^ L <=? n else d <=? n * 2 ^ (- L)) then (A <= t)%Q else (t < A)%Q).
+    { destruct (0 <=? L) eqn:EL.
+      - apply Z.leb_le in EL. pose proof (p2_inj L EL) as PI. fold A in PI.
+        destruct (d * 2 ^ L <=? n) eqn:C.
+        + apply Z.leb_le in C. rewrite Zle_Qle, inject_Z_mult, <- PI, <- Ht in C. fold Dd in C. nra.
+        + apply Z.leb_gt in C. rewrite Zlt_Qlt, inject_Z_mult, <- PI, <- Ht in C. fold Dd in C. nra.
+      - apply Z.leb_gt in EL. pose proof (p2_inj (- L) ltac:(lia)) as PI. pose proof (p2_inv L) as IV. fold A in IV.
+        pose proof (p2_pos (- L)) as PN.
+        destruct (d <=? n * 2 ^ (- L)) eqn:C.
+        + apply Z.leb_le in C. rewrite Zle_Qle, inject_Z_mult, <- PI, <- Ht in C. fold Dd in C.
+          set (V := p2 (- L)) in *. assert (Dd * A <= t * Dd * (A * V))%Q by nra. rewrite IV in H. nra.
+        + apply Z.leb_gt in C. rewrite Zlt_Qlt, inject_Z_mult, <- PI, <- Ht in C. fold Dd in C.
+          set (V := p2 (- L)) in *. assert (t * Dd * (A * V) < Dd * A)%Q by nra. rewrite IV in H. nra. }
+    destruct (if 0 <=? L then d * 2 ^ L <=? n else d <=? n * 2 ^ (- L)).
+    - rewrite p2_succ. fold A. split; [exact Tst | exact Up].
+    - replace (L - 1 + 1) with L by lia. fold A. split; [|exact Tst].
+      assert (E : (A == (2 # 1) * p2 (L - 1))%Q).
+      { unfold A. rewrite <- p2_succ. replace (L - 1 + 1) with L by lia. reflexivity. }
+      pose proof (p2_pos (L - 1)). nra.
+  Qed.
+End Rounding.
+
+(* round-half-even gives a nearest integer *)
+Lemma rhe_nearest : forall a b j, 0 < b -> Z.abs (rhe a b * b - a) <= Z.abs (j * b - a).
+Proof.
+  intros a b j Hb. pose proof (rhe_bound a b Hb) as H. set (q := rhe a b) in *.
+  destruct (Z_lt_le_dec j q) as [C|C]; [|destruct (Z.eq_dec j q) as [->|N]; [lia|]]; nia.
+Qed.
+
+Lemma Qabs_inject : forall z, (Qabs (inject_Z z) == inject_Z (Z.abs z))%Q.
+Proof. intros z. unfold Qabs, inject_Z. cbn. reflexivity. Qed.
+
+(* the scaled fraction a/b = t / 2^e of round_core *)
+Section Nearest.
+  Variables n d : Z.
+  Hypothesis Hn : 0 < n.
+  Hypothesis Hd : 0 < d.
+  Variable t : Q.
+  Hypothesis Ht : (t * inject_Z d == inject_Z n)%Q.
+
+  Lemma round_core_scaled : forall e,
+    let a := if 0 <=? e then n else n * 2 ^ (- e) in
+    let b := if 0 <=? e then d * 2 ^ e else d in
+    0 < b /\ (t * inject_Z b == inject_Z a * p2 e)%Q.
+  Proof.
+    intros e. destruct (0 <=? e) eqn:E; cbn zeta.
+    - apply Z.leb_le in E. split; [apply Z.mul_pos_pos; [exact Hd | apply Z.pow_pos_nonneg; lia]|].
+      rewrite inject_Z_mult, <- (p2_inj e E), <- Ht. ring.
+    - apply Z.leb_gt in E. split; [exact Hd|].
+      rewrite inject_Z_mult, <- (p2_inj (- e)) by lia. rewrite <- Ht.
+      transitivity (t * inject_Z d * (p2 (- e) * p2 e))%Q; [|ring].
+      rewrite Qmult_comm with (x := p2 (- e)). rewrite p2_inv. ring.
+  Qed.
+
+  (* among the multiples of 2^e, m * 2^e is a nearest one to t *)
+  Lemma round_core_multiple : forall m e j,
+    round_core n d = (m, e) ->
+    (Qabs (inject_Z m * p2 e - t) <= Qabs (inject_Z j * p2 e - t))%Q.
+  Proof.
+    intros m e j H. unfold round_core in H.
+    set (lg := flog2_q n d) in *. inversion H as [[Hm He]]. clear H.
+    set (e0 := Z.max (lg - 52) (-1074)) in *.
+    destruct (round_core_scaled e0) as [Pb Eq].
+    set (a := if 0 <=? e0 then n else n * 2 ^ (- e0)) in *.
+    set (b := if 0 <=? e0 then d * 2 ^ e0 else d) in *.
+    assert (Rm : (if 0 <=? e0 then rhe n (d * 2 ^ e0) else rhe (n * 2 ^ (- e0)) d) = rhe a b).
+    { unfold a, b. destruct (0 <=? e0); reflexivity. }
+    rewrite Rm.
+    pose proof (rhe_nearest a b j Pb) as NZ.
+    (* |k * 2^e - t| = |k b - a| * 2^e / b *)
+    assert (G : forall k, (Qabs (inject_Z k * p2 e0 - t) * inject_Z b == inject_Z (Z.abs (k * b - a)) * p2 e0)%Q).
+    { intros k. rewrite <- Qabs_inject.
+      assert (Pq : (0 < inject_Z b)%Q) by (apply inj_pos; exact Pb).
+      rewrite <- (Qabs_pos (inject_Z b)) at 1 by (apply Qlt_le_weak; exact Pq).
+      rewrite <- (Qabs_pos (p2 e0)) at 2 by (apply Qlt_le_weak; apply p2_pos).
+      rewrite <- !Qabs_Qmult. apply Qabs_wd.
+      unfold Zminus. rewrite inject_Z_plus, inject_Z_opp, inject_Z_mult.
+      transitivity (inject_Z k * p2 e0 * inject_Z b - t * inject_Z b)%Q; [ring|]. rewrite Eq. ring. }
+    pose proof (G (rhe a b)) as G1. pose proof (G j) as G2.
+    assert (Pq : (0 < inject_Z b)%Q) by (apply inj_pos; exact Pb).
+    pose proof (p2_pos e0) as P0.
+    rewrite Zle_Qle in NZ.
+    set (u := Qabs (inject_Z (rhe a b) * p2 e0 - t)) in *. set (v := Qabs (inject_Z j * p2 e0 - t)) in *.
+    set (B := inject_Z b) in *. set (s := p2 e0) in *.
+    set (zu := inject_Z (Z.abs (rhe a b * b - a))) in *. set (zv := inject_Z (Z.abs (j * b - a))) in *.
+    assert (u * B <= v * B)%Q by (rewrite G1, G2; nra). nra.
+  Qed.
+
+  Lemma round_core_exp : forall m e, round_core n d = (m, e) ->
+    e = Z.max (flog2_q n d - 52) (-1074).
+  Proof. intros m e H. unfold round_core in H. inversion H. reflexivity. Qed.
+End Nearest.
+
+Definition delta17 : Q := ((1 # 2) * p10 (- 16))%Q.
+
+Lemma Z_of_Q_small : forall a b : Z, (Qabs (inject_Z a - inject_Z b) < 1)%Q -> a = b.
+Proof.
+  intros a b H. apply Qabs_Qlt_condition in H. destruct H as [H1 H2].
+  unfold Qlt, Qminus, Qplus, Qopp, inject_Z in *. cbn in *. lia.
+Qed.
+
+Section NearDouble.
+  Variables n d : Z.
+  Hypothesis Hn : 0 < n.
+  Hypothesis Hd : 0 < d.
+  Variable t : Q.
+  Hypothesis Ht : (t * inject_Z d == inject_Z n)%Q.
+
+  (* t within half a unit of the 17th significant digit of a double x: float(t) = x *)
+  Lemma round_near_double : forall m e mx ex,
+    round_core n d = (m, e) ->
+    0 <= mx < 2 ^ 53 -> -1074 <= ex ->
+    (Qabs (t - inject_Z mx * p2 ex) <= delta17 * (inject_Z mx * p2 ex))%Q ->
+    (inject_Z m * p2 e == inject_Z mx * p2 ex)%Q.
+  Proof.
+    intros m e mx ex H Hmx Hex Hc.
+    pose proof (t_pos n d Hn Hd t Ht) as Tp.
+    destruct (flog2_q_spec n d Hn Hd t Ht) as [L1 L2].
+    pose proof (round_core_exp n d m e H) as He.
+    set (lg := flog2_q n d) in *. clearbody lg.
+    apply Qabs_Qle_condition in Hc. destruct Hc as [C1 C2].
+    unfold delta17 in C1, C2. change (p10 (- 16)) with (1 # 10000000000000000)%Q in C1, C2.
+    pose proof (p2_pos ex) as Pex. pose proof (p2_pos e) as Pe.
+    change (2 ^ 53) with 9007199254740992 in Hmx.
+    assert (MX : (0 <= inject_Z mx <= inject_Z 9007199254740991)%Q).
+    { unfold Qle, inject_Z; cbn; lia. }
+    change (inject_Z 9007199254740991) with (9007199254740991 # 1)%Q in MX.
+    destruct (Z_le_gt_dec e ex) as [Le|Gt].
+    - (* x is a multiple of 2^e *)
+      set (j := mx * 2 ^ (ex - e)).
+      assert (Ej : (inject_Z j * p2 e == inject_Z mx * p2 ex)%Q).
+      { unfold j. rewrite inject_Z_mult, <- (p2_inj (ex - e)) by lia.
+        rewrite <- Qmult_assoc, <- p2_plus. replace (ex - e + e) with ex by lia. reflexivity. }
+      pose proof (round_core_multiple n d Hd t Ht m e j H) as Near.
+      rewrite Ej in Near. rewrite <- Ej in *. clearbody j.
+      assert (Up : (t < (9007199254740992 # 1) * p2 e)%Q).
+      { assert (p2 (lg + 1) <= p2 (e + 53))%Q by (apply p2_mono; clear - He; lia).
+        rewrite (p2_plus e 53) in H0. change (p2 53) with (9007199254740992 # 1)%Q in H0. lra. }
+      set (s := p2 e) in *. set (J := inject_Z j) in *. set (M := inject_Z m) in *.
+      assert (N2 : (Qabs (M * s - t) <= (1 # 20000000000000000) * (J * s))%Q).
+      { eapply Qle_trans; [exact Near|]. apply Qabs_Qle_condition. split; nra. }
+      apply Qabs_Qle_condition in N2. destruct N2 as [N1 N2].
+      assert (Jb : (J * (19999999999999999 # 20000000000000000) < 9007199254740992 # 1)%Q).
+      { assert (J * s * (19999999999999999 # 20000000000000000) < (9007199254740992 # 1) * s)%Q by nra. nra. }
+      assert (Jn : (0 <= J)%Q).
+      { assert (0 <= J * s)%Q by nra. nra. }
+      assert (Sm : (Qabs (M - J) < 1)%Q).
+      { apply Qabs_Qlt_condition. split.
+        - assert (- (J * s * (1 # 10000000000000000)) <= (M - J) * s)%Q by nra.
+          assert (- (1) < M - J)%Q; [|lra]. nra.
+        - assert ((M - J) * s <= J * s * (1 # 10000000000000000))%Q by nra.
+          assert (M - J < 1)%Q; [|lra]. nra. }
+      apply Z_of_Q_small in Sm. unfold M, J. rewrite Sm. reflexivity.
+    - (* x is below the binade of t: impossible *)
+      exfalso.
+      assert (E1 : e = lg - 52) by (clear - He Gt Hex; lia).
+      assert (T1 : (p2 (e + 52) <= t)%Q) by (replace (e + 52) with lg by (clear - E1; lia); exact L1).
+      assert (T2 : ((9007199254740992 # 1) * p2 ex <= p2 (e + 52))%Q).
+      { replace (e + 52) with (ex + (e + 52 - ex)) by (clear; lia). rewrite p2_plus.
+        assert (p2 53 <= p2 (e + 52 - ex))%Q by (apply p2_mono; clear - Gt; lia).
+        change (p2 53) with (9007199254740992 # 1)%Q in H0. nra. }
+      set (X := (inject_Z mx * p2 ex)%Q) in *.
+      assert (X1 : (X <= (9007199254740991 # 1) * p2 ex)%Q) by (unfold X; nra).
+      assert (X2 : (X * (9007199254740992 # 1) <= (9007199254740991 # 1) * t)%Q) by nra.
+      assert (X3 : (t <= X * (20000000000000001 # 20000000000000000))%Q) by lra.
+      nra.
+  Qed.
+End NearDouble.
+
+(* a finite IEEE double: 53 bit significand, exponent not below the subnormal one, below 2^1024 *)
+Definition is_double (x : dbl) : Prop :=
+  0 <= dman x < 2 ^ 53 /\ -1074 <= dexp x /\ (dabs x < p2 1024)%Q.
+
+Lemma dec_frac : forall M k,
+  0 < dec_den k /\ (inject_Z M * p10 k * inject_Z (dec_den k) == inject_Z (dec_num M k))%Q.
+Proof.
+  intros M k. unfold dec_den, dec_num. destruct (0 <=? k) eqn:E.
+  - apply Z.leb_le in E. split; [lia|]. rewrite inject_Z_mult, <- (p10_inject k E). ring.
+  - apply Z.leb_gt in E. split; [apply pow10_pos; lia|].
+    rewrite <- (p10_inject (- k)) by lia. rewrite <- Qmult_assoc, p10_inv. ring.
+Qed.
+
+Lemma mk_round_near_double : forall neg M k x,
+  is_double x -> 0 < dman x ->
+  (Qabs (inject_Z M * p10 k - dabs x) <= delta17 * dabs x)%Q ->
+  exists y, mk_round neg (dec_num M k) (dec_den k) = Some y /\ dneg y = neg /\ 0 <= dman y /\
+            (dabs y == dabs x)%Q.
+Proof.
+  intros neg M k x (Hm & He & Hf) Pm Hc.
+  destruct (dec_frac M k) as [Dp Fr].
+  set (t := (inject_Z M * p10 k)%Q) in *.
+  assert (Xp : (0 < dabs x)%Q).
+  { unfold dabs. apply Qmult_lt_0_compat; [apply inj_pos; exact Pm | apply Qpower_0_lt; reflexivity]. }
+  assert (Tp : (0 < t)%Q).
+  { pose proof Hc as Hc'. apply Qabs_Qle_condition in Hc'. destruct Hc' as [C1 _].
+    unfold delta17 in C1. change (p10 (- 16)) with (1 # 10000000000000000)%Q in C1. nra. }
+  assert (Np : 0 < dec_num M k).
+  { assert (0 < inject_Z (dec_num M k))%Q; [|unfold Qlt in H; cbn in H; lia].
+    rewrite <- Fr. apply Qmult_lt_0_compat; [exact Tp | apply inj_pos; exact Dp]. }
+  destruct (round_core (dec_num M k) (dec_den k)) as [m e] eqn:RC.
+  assert (Eq : (inject_Z m * p2 e == dabs x)%Q).
+  { unfold dabs. fold (p2 (dexp x)).
+    apply (round_near_double (dec_num M k) (dec_den k) Np Dp t Fr m e (dman x) (dexp x) RC); try assumption; try lia. }
+  assert (Mn : 0 <= m).
+  { assert (0 < inject_Z m)%Q; [|unfold Qlt in H; cbn in H; lia].
+    pose proof (p2_pos e). rewrite <- Eq in Xp.
+    destruct (Qlt_le_dec 0 (inject_Z m)) as [G|G]; [exact G|]. exfalso. nra. }
+  exists (mkD neg m e). unfold mk_round, round_dbl.
+  assert (Nz : (dec_num M k =? 0) = false) by (apply Z.eqb_neq; lia). rewrite Nz, RC.
+  assert (NoOv : andb (0 <=? e) (2 ^ 1024 <=? m * 2 ^ e) = false).
+  { destruct (0 <=? e) eqn:E0; [|reflexivity]. apply Z.leb_le in E0. cbn [andb]. apply Z.leb_gt.
+    rewrite <- Eq in Hf. rewrite (p2_inj e E0), (p2_inj 1024) in Hf by lia.
+    rewrite <- inject_Z_mult, <- Zlt_Qlt in Hf. exact Hf. }
+  rewrite NoOv. cbn. repeat split; try assumption; try reflexivity.
+Qed.
+
+Lemma d_eqb_of_Q : forall a b,
+  dneg a = dneg b -> (dabs a == dabs b)%Q -> d_eqb a b = true.
+Proof.
+  intros a b Hs Hq. unfold d_eqb, d_scaled. rewrite Hs.
+  set (mn := Z.min (dexp a) (dexp b)).
+  assert (E : dman a * 2 ^ (dexp a - mn) = dman b * 2 ^ (dexp b - mn)).
+  { apply inject_Z_injective. rewrite !inject_Z_mult, <- !p2_inj by lia.
+    unfold dabs in Hq. fold (p2 (dexp a)) (p2 (dexp b)) in Hq.
+    unfold Zminus. rewrite !p2_plus, !Qmult_assoc, Hq. reflexivity. }
+  rewrite E. apply Z.eqb_refl.
+Qed.
+
+Lemma isclose_of_Q : forall a b,
+  dneg a = dneg b -> (dabs a == dabs b)%Q -> isclose a b = true.
+Proof. intros a b Hs Hq. unfold isclose. now rewrite (d_eqb_of_Q a b Hs Hq). Qed.
+
+(* ------------------------------------------------------------------------------------------ *)
+(* 12. reading the text of %g *)
+
+Lemma rstrip_zeros_spec : forall s, all_digits s = true ->
+  exists j, 0 <= j /\ s = rstrip_zeros s ++ zeros j /\ all_digits (rstrip_zeros s) = true.
+Proof.
+  induction s as [|a s IH]; intros H.
+  - exists 0. split; [lia|]. split; reflexivity.
+  - cbn in H. apply andb_true_iff in H. destruct H as [Ha Hs].
+    destruct (IH Hs) as (j & J0 & E & A). cbn [rstrip_zeros].
+    destruct (andb (Ascii.eqb a "0") (String.eqb (rstrip_zeros s) "")) eqn:C.
+    + apply andb_true_iff in C. destruct C as [C1 C2]. apply Ascii.eqb_eq in C1. apply String.eqb_eq in C2.
+      subst a. rewrite C2 in E. cbn in E. exists (j + 1). split; [lia|]. split; [|reflexivity].
+      cbn [append]. rewrite E at 1. unfold zeros. replace (Z.to_nat (j + 1)) with (S (Z.to_nat j)) by lia.
+      reflexivity.
+    + exists j. split; [exact J0|]. split.
+      * cbn [append]. now rewrite <- E.
+      * cbn. now rewrite Ha, A.
+Qed.
+
+Lemma digits_val_zeros : forall j, digits_val (zeros j) = 0.
+Proof. intros j. rewrite <- (sapp_nil_r (zeros j)). rewrite digits_val_zeros_app. reflexivity. Qed.
+
+Lemma digits_val_app_zeros : forall f j, 0 <= j -> digits_val (f ++ zeros j) = digits_val f * 10 ^ j.
+Proof.
+  intros f j H. rewrite digits_val_app, digits_val_zeros, slen_zeros. replace (Z.max j 0) with j by lia. lia.
+Qed.
+
+Definition neg_flag (sg : option ascii) : bool := match sg with Some a => Ascii.eqb a "-" | None => false end.
+
+Lemma p10_cancel : forall j, (inject_Z (10 ^ j) * p10 (- j) == 1)%Q \/ j < 0.
+Proof.
+  intros j. destruct (Z_lt_le_dec j 0); [now right|left].
+  rewrite <- (p10_inject j) by lia. apply p10_inv.
+Qed.
+
+(* ip[.frac] with the trailing zeros of frac removed, no exponent *)
+Lemma read_with_frac : forall (sg : option ascii) z ip frac,
+  match sg with Some a => is_sign a = true | None => True end ->
+  all_digits ip = true -> ip <> "" -> all_digits frac = true ->
+  exists M k, read_number (sign_str sg ++ zeros z ++ with_frac ip frac) = Some (neg_flag sg, M, k) /\
+     (inject_Z M * p10 k == inject_Z (digits_val (ip ++ frac)) * p10 (- slen frac))%Q.
+Proof.
+  intros sg z ip frac Hsg Hip Nip Hfr.
+  destruct (rstrip_zeros_spec frac Hfr) as (j & J0 & Ef & Af).
+  set (f := rstrip_zeros frac) in *.
+  set (d2 := if String.eqb f "" then None else Some f).
+  assert (Tx : sign_str sg ++ zeros z ++ with_frac ip frac = sign_str sg ++ (zeros z ++ ip) ++ dot_str d2).
+  { unfold with_frac, d2. fold f. destruct (String.eqb f ""); cbn [dot_str]; rewrite ?sapp_assoc, ?sapp_nil_r; reflexivity. }
+  assert (D2 : match d2 with Some s => s | None => "" end = f).
+  { unfold d2. destruct (String.eqb f "") eqn:E; [apply String.eqb_eq in E; now rewrite E | reflexivity]. }
+  exists (digits_val (ip ++ f)), (- slen f). split.
+  - unfold read_number. rewrite Tx, scan_fixed_text.
+    + unfold scan_neg, scan_mant, scan_k, scan_exp, neg_flag. cbn [s_sign s_d1 s_d2 s_edigits s_esign].
+      rewrite D2, sapp_assoc, digits_val_zeros_app. reflexivity.
+    + exact Hsg.
+    + rewrite all_digits_app, all_digits_zeros. exact Hip.
+    + intros C. apply (f_equal String.length) in C. rewrite length_app_s in C. destruct ip; [congruence | cbn in C; lia].
+    + unfold d2. destruct (String.eqb f ""); [exact I | exact Af].
+  - rewrite Ef. rewrite <- sapp_assoc, digits_val_app_zeros by exact J0.
+    rewrite slen_app, slen_zeros. replace (Z.max j 0) with j by lia.
+    rewrite inject_Z_mult. replace (- (slen f + j)) with (- slen f + - j) by lia. rewrite p10_plus.
+    destruct (p10_cancel j) as [C|C]; [|lia].
+    transitivity (inject_Z (digits_val (ip ++ f)) * p10 (- slen f) * (inject_Z (10 ^ j) * p10 (- j)))%Q; [|ring].
+    rewrite C. ring.
+Qed.
+
+Lemma exp_digits_props : forall E,
+  all_digits (exp_digits E) = true /\ exp_digits E <> "" /\ digits_val (exp_digits E) = Z.abs E.
+Proof.
+  intros E. unfold exp_digits. pose proof (all_digits_show (Z.abs E)) as A.
+  pose proof (show_nonempty (Z.abs E)) as N. pose proof (digits_val_show (Z.abs E) ltac:(lia)) as V.
+  destruct (Z.abs E <? 10).
+  - split; [|split].
+    + cbn. exact A.
+    + discriminate.
+    + change ("0" ++ show_nat_Z (Z.abs E)) with (zeros 1 ++ show_nat_Z (Z.abs E)).
+      rewrite digits_val_zeros_app. exact V.
+  - auto.
+Qed.
+
+(* a[.frac]e+XX with the trailing zeros of frac removed *)
+Lemma read_with_frac_sci : forall (sg : option ascii) z a frac E,
+  match sg with Some c => is_sign c = true | None => True end ->
+  is_digit a = true -> all_digits frac = true ->
+  exists M k, read_number (sign_str sg ++ zeros z ++ with_frac (String a "") frac ++ "e" ++ exp_sign E ++ exp_digits E)
+              = Some (neg_flag sg, M, k) /\
+     (inject_Z M * p10 k == inject_Z (digits_val (String a frac)) * p10 (E - slen frac))%Q.
+Proof.
+  intros sg z a frac E Hsg Ha Hfr.
+  destruct (rstrip_zeros_spec frac Hfr) as (j & J0 & Ef & Af).
+  set (f := rstrip_zeros frac) in *.
+  set (d2 := if String.eqb f "" then None else Some f).
+  destruct (exp_digits_props E) as (Aed & Ned & Ved).
+  set (es := if E <? 0 then "-"%char else "+"%char).
+  assert (Ees : exp_sign E = String es "") by (unfold exp_sign, es; destruct (E <? 0); reflexivity).
+  assert (Hes : is_sign es = true) by (unfold es; destruct (E <? 0); reflexivity).
+  assert (Tx : sign_str sg ++ zeros z ++ with_frac (String a "") frac ++ "e" ++ exp_sign E ++ exp_digits E
+               = sign_str sg ++ (zeros z ++ String a "") ++ dot_str d2 ++ sign_str (Some "e"%char) ++ String es (exp_digits E)).
+  { unfold with_frac, d2. fold f. rewrite Ees.
+    destruct (String.eqb f ""); cbn [dot_str sign_str]; rewrite ?sapp_assoc; reflexivity. }
+  assert (D2 : match d2 with Some s => s | None => "" end = f).
+  { unfold d2. destruct (String.eqb f "") eqn:E0; [apply String.eqb_eq in E0; now rewrite E0 | reflexivity]. }
+  exists (digits_val (String a f)), (E - slen f). split.
+  - unfold read_number. rewrite Tx, scan_sci_text; try assumption.
+    + unfold scan_neg, scan_mant, scan_k, scan_exp, neg_flag. cbn [s_sign s_d1 s_d2 s_edigits s_esign].
+      rewrite D2, Ved, sapp_assoc, digits_val_zeros_app. cbn [append].
+      f_equal. f_equal. unfold es. destruct (E <? 0) eqn:EE; [apply Z.ltb_lt in EE | apply Z.ltb_ge in EE]; cbn; lia.
+    + rewrite all_digits_app, all_digits_zeros. cbn. now rewrite Ha.
+    + intros C. apply (f_equal String.length) in C. rewrite length_app_s in C. cbn in C. lia.
+    + unfold d2. destruct (String.eqb f ""); [exact I | exact Af].
+    + right. left. reflexivity.
+  - change (String a frac) with (String a "" ++ frac). change (String a f) with (String a "" ++ f).
+    rewrite Ef. rewrite <- sapp_assoc, digits_val_app_zeros by exact J0.
+    rewrite slen_app, slen_zeros. replace (Z.max j 0) with j by lia.
+    rewrite inject_Z_mult. replace (E - (slen f + j)) with (E - slen f + - j) by lia. rewrite p10_plus.
+    destruct (p10_cancel j) as [C|C]; [|lia].
+    transitivity (inject_Z (digits_val (String a "" ++ f)) * p10 (E - slen f) * (inject_Z (10 ^ j) * p10 (- j)))%Q; [|ring].
+    rewrite C. ring.
+Qed.
+
+Lemma neg_flag_read_sign : forall sopt neg, neg_flag (read_sign sopt neg) = neg.
+Proof.
+  intros sopt neg. unfold read_sign, neg_flag. destruct neg; [reflexivity|].
+  destruct (Ascii.eqb sopt "+"); reflexivity.
+Qed.
+
+Lemma show_head_digit : forall v, exists c rest, show_nat_Z v = String c rest /\ is_digit c = true.
+Proof.
+  intros v. pose proof (show_nonempty v) as Ne. pose proof (all_digits_show v) as Ad.
+  destruct (show_nat_Z v) as [|c rest]; [congruence|]. cbn in Ad. apply andb_true_iff in Ad.
+  exists c, rest. split; [reflexivity | apply Ad].
+Qed.
+
+Lemma with_frac_head : forall ip frac c rest, ip = String c rest ->
+  exists rest', with_frac ip frac = String c rest'.
+Proof.
+  intros ip frac c rest ->. unfold with_frac. destruct (String.eqb (rstrip_zeros frac) ""); cbn; eauto.
+Qed.
+
+(* "%.{P}g": the text, with the sign and the zero fill of format(), reads as  D * 10^(E-(P-1))  for
+   the P significant digits (D, E) of the digit generation *)
+Lemma g_body_read : forall P0 x b sopt z,
+  0 <= P0 -> 0 < dman x -> g_body P0 x = Ok b ->
+  exists D E M k,
+    sci_digits ((if P0 =? 0 then 1 else P0) - 1) (d_num x) (d_den x) = Some (D, E) /\
+    read_number (drop_blank (sign_text sopt (dneg x) ++ zeros z ++ b)) = Some (dneg x, M, k) /\
+    (inject_Z M * p10 k == inject_Z D * p10 (E - ((if P0 =? 0 then 1 else P0) - 1)))%Q.
+Proof.
+  intros P0 x b sopt z HP Pm H. unfold g_body in H.
+  set (P := if P0 =? 0 then 1 else P0) in *.
+  assert (P1 : 1 <= P) by (unfold P; destruct (P0 =? 0) eqn:E; [lia | apply Z.eqb_neq in E; lia]).
+  assert (Z0 : (dman x =? 0) = false) by (apply Z.eqb_neq; lia). rewrite Z0 in H.
+  destruct (sci_digits (P - 1) (d_num x) (d_den x)) as [[D E]|] eqn:SD; [|discriminate].
+  destruct (d_frac x) as [Fx Dp].
+  destruct (sci_digits_spec (d_num x) (d_den x) Dp (dabs x) Fx (P - 1) D E ltac:(lia) SD) as [[D1 D2] _].
+  replace (P - 1 + 1) with P in D2 by lia.
+  assert (Dpos : 0 <= D) by (pose proof (pow10_pos (P - 1) ltac:(lia)); lia).
+  exists D, E.
+  assert (Fin : forall body c rest M k,
+            body = String c rest -> is_digit c = true ->
+            read_number (sign_str (read_sign sopt (dneg x)) ++ zeros z ++ body)
+              = Some (neg_flag (read_sign sopt (dneg x)), M, k) ->
+            read_number (drop_blank (sign_text sopt (dneg x) ++ zeros z ++ body)) = Some (dneg x, M, k)).
+  { intros body c rest M k Eb Hc R.
+    destruct (zeros_digit_head z body c rest Eb Hc) as (c' & rest' & Ez & Hc').
+    destruct (drop_blank_signed sopt (dneg x) _ c' rest' Ez Hc') as (Ed & _ & _).
+    rewrite Ed, R, neg_flag_read_sign. reflexivity. }
+  assert (Hsg : match read_sign sopt (dneg x) with Some a => is_sign a = true | None => True end).
+  { unfold read_sign. destruct (dneg x); [reflexivity|]. destruct (Ascii.eqb sopt "+"); [reflexivity | exact I]. }
+  destruct (andb (-4 <=? E) (E <? P)) eqn:Rng.
+  - (* fixed notation *)
+    apply andb_true_iff in Rng. destruct Rng as [_ R2]. apply Z.ltb_lt in R2.
+    set (nd := P - 1 - E) in *. assert (Nd : 0 <= nd) by (unfold nd; lia).
+    inversion H; subst b; clear H.
+    set (ip := show_nat_Z (D / 10 ^ nd)). set (frac := digits_fixed (Z.to_nat nd) (D mod 10 ^ nd)).
+    pose proof (pow10_pos nd Nd) as PP.
+    destruct (read_with_frac (read_sign sopt (dneg x)) z ip frac Hsg (all_digits_show _) (show_nonempty _)
+                (all_digits_fixed _ _)) as (M & k & R & V).
+    exists M, k. split; [reflexivity|]. split.
+    + destruct (show_head_digit (D / 10 ^ nd)) as (c & rest & Es & Hc). fold ip in Es.
+      destruct (with_frac_head ip frac c rest Es) as (rest' & Ew).
+      eapply Fin; [exact Ew | exact Hc | exact R].
+    + rewrite V. unfold ip, frac.
+      rewrite digits_val_app, digits_val_show by (apply Z.div_pos; lia).
+      rewrite slen_digits_fixed, Z2Nat.id by lia.
+      rewrite digits_val_fixed by (apply Z.mod_pos_bound; lia). rewrite Z2Nat.id by lia.
+      rewrite Z.mod_mod by lia.
+      assert (A : D / 10 ^ nd * 10 ^ nd + D mod 10 ^ nd = D)
+        by (pose proof (Z.div_mod D (10 ^ nd) ltac:(lia)); lia).
+      rewrite A. replace (E - (P - 1)) with (- nd) by (unfold nd; lia). reflexivity.
+  - (* exponent notation *)
+    destruct (digits_fixed (Z.to_nat P) D) as [|a r] eqn:DF; [discriminate|].
+    inversion H; subst b; clear H.
+    pose proof (all_digits_fixed (Z.to_nat P) D) as AD. rewrite DF in AD. cbn in AD.
+    apply andb_true_iff in AD. destruct AD as [Aa Ar].
+    pose proof (slen_digits_fixed (Z.to_nat P) D) as SL. rewrite DF, slen_cons in SL.
+    rewrite Z2Nat.id in SL by lia.
+    assert (VD : digits_val (String a r) = D).
+    { rewrite <- DF, digits_val_fixed by lia. rewrite Z2Nat.id by lia. apply Z.mod_small. lia. }
+    destruct (read_with_frac_sci (read_sign sopt (dneg x)) z a r E Hsg Aa Ar) as (M & k & R & V).
+    exists M, k. split; [reflexivity|]. split.
+    + destruct (with_frac_head (String a "") r a "" eq_refl) as (rest' & Ew).
+      apply (Fin _ a (rest' ++ "e" ++ exp_sign E ++ exp_digits E) M k);
+        [rewrite Ew; reflexivity | exact Aa | exact R].
+    + rewrite V, VD. replace (E - slen r) with (E - (P - 1)) by lia. reflexivity.
+Qed.
+
+(* the relative error of %g with P significant digits: half a unit of the last digit *)
+Lemma g_branch_error : forall P0 x b sopt z,
+  0 <= P0 -> 0 < dman x -> g_body P0 x = Ok b ->
+  exists M k, read_number (drop_blank (sign_text sopt (dneg x) ++ zeros z ++ b)) = Some (dneg x, M, k) /\
+    (Qabs (inject_Z M * p10 k - dabs x)
+       <= (1 # 2) * p10 (- ((if P0 =? 0 then 1 else P0) - 1)) * dabs x)%Q.
+Proof.
+  intros P0 x b sopt z HP Pm H.
+  destruct (g_body_read P0 x b sopt z HP Pm H) as (D & E & M & k & SD & R & V).
+  exists M, k. split; [exact R|]. rewrite V.
+  destruct (d_frac x) as [Fx Dp].
+  assert (P1 : 0 <= (if P0 =? 0 then 1 else P0) - 1)
+    by (destruct (P0 =? 0) eqn:E0; [lia | apply Z.eqb_neq in E0; lia]).
+  destruct (sci_digits_spec (d_num x) (d_den x) Dp (dabs x) Fx _ D E P1 SD) as [_ B].
+  apply Qabs_Qle_condition. exact B.
+Qed.
+
+(* ------------------------------------------------------------------------------------------ *)
+(* 13. float nodes: the text format() writes is read back within the tolerance *)
+
+(* float(text) of an exact decimal: the nearest double; None beyond the largest double *)
+Definition dec_to_dbl (r : bool * Z * Z) : option dbl :=
+  let '(neg, M, k) := r in mk_round neg (dec_num M k) (dec_den k).
+(* the first word of the written text is a number that is read as the double y *)
+Definition reads_as (s : string) (y : dbl) : Prop :=
+  exists r, written_number s = Some r /\ dec_to_dbl r = Some y.
+(* what follows the node: nothing, or a blank first; no empty padding strings *)
+Definition followed_ok (l : list pnode) : Prop :=
+  l = [] \/ exists p rest, l = p :: rest /\ pnode_is_space p = true /\
+                           Forall (fun q => pnode_text q <> "") (p :: rest).
+
+(* math.isclose is symmetric *)
+Lemma d_eqb_sym : forall a b, d_eqb a b = d_eqb b a.
+Proof. intros a b. unfold d_eqb. rewrite (Z.min_comm (dexp a) (dexp b)). apply Z.eqb_sym. Qed.
+
+Lemma d_abs_leb_sign : forall s1 s2 m e t, d_abs_leb (mkD s1 m e) t = d_abs_leb (mkD s2 m e) t.
+Proof.
+  intros s1 s2 m e t. unfold d_abs_leb, d_scaled. cbn [dneg dman dexp].
+  destruct s1, s2; rewrite ?Z.abs_opp; reflexivity.
+Qed.
+
+Lemma isclose_sym : forall a b, isclose a b = isclose b a.
+Proof.
+  intros a b. unfold isclose. rewrite (d_eqb_sym a b). destruct (d_eqb b a); [reflexivity|].
+  unfold d_sub. rewrite (Z.min_comm (dexp b) (dexp a)).
+  set (mn := Z.min (dexp a) (dexp b)).
+  set (v := d_scaled b mn - d_scaled a mn).
+  replace (d_scaled a mn - d_scaled b mn) with (- v) by (unfold v; lia).
+  rewrite Z.abs_opp.
+  assert (G : forall s1 s2 N D,
+     match mk_round s1 N D, d_mul rel_tol b, d_mul rel_tol a with
+     | Some diff, Some tb, Some ta => orb (orb (d_abs_leb diff tb) (d_abs_leb diff ta)) (d_abs_leb diff abs_tol)
+     | _, _, _ => false
+     end =
+     match mk_round s2 N D, d_mul rel_tol a, d_mul rel_tol b with
+     | Some diff, Some tb, Some ta => orb (orb (d_abs_leb diff tb) (d_abs_leb diff ta)) (d_abs_leb diff abs_tol)
+     | _, _, _ => false
+     end).
+  { intros s1 s2 N D. unfold mk_round. destruct (round_dbl N D) as [[m e]|]; [|reflexivity].
+    destruct (d_mul rel_tol b) as [tb|], (d_mul rel_tol a) as [ta|]; try reflexivity.
+    rewrite (d_abs_leb_sign s1 s2 m e tb), (d_abs_leb_sign s1 s2 m e ta), (d_abs_leb_sign s1 s2 m e abs_tol).
+    rewrite (orb_comm (d_abs_leb _ tb) (d_abs_leb _ ta)). reflexivity. }
+  destruct (0 <=? mn); apply G.
+Qed.
+
+Lemma reads_back_true : forall temp x, reads_back temp x = Ok true ->
+  exists sc y, fortran_scan (strip temp) = Some sc /\
+               dec_to_dbl (scan_neg sc, scan_mant sc, scan_k sc) = Some y /\ isclose y x = true.
+Proof.
+  intros temp x H. unfold reads_back, fortran_float in H.
+  destruct (fortran_scan (strip temp)) as [sc|] eqn:FS; [|discriminate].
+  destruct (mk_round (scan_neg sc) (dec_num (scan_mant sc) (scan_k sc)) (dec_den (scan_k sc))) as [y|] eqn:MR;
+    [|discriminate].
+  inversion H. exists sc, y. auto.
+Qed.
+
+(* the float branch of format(): the loop's last test passed, or the text is the ".17g" fall-back *)
+Lemma float_text_cases : forall reversed f x s,
+  float_text reversed f x = Ok s -> reads_back s x = Ok true \/ fallback_text f x = Ok s.
+Proof.
+  intros reversed f x s H. unfold float_text in H.
+  destruct (format_float reversed f x (precision f)) as [t0|]; [|discriminate]. cbn [bind] in H.
+  destruct (prec_loop reversed f x (Z.to_nat (17 - precision f)) (precision f) t0) as [temp|]; [|discriminate].
+  cbn [bind] in H. destruct (reads_back temp x) as [[|]|] eqn:RB; cbn [bind] in H.
+  - inversion H; subst. now left.
+  - now right.
+  - discriminate.
+Qed.
+
+(* the fall-back: 17 significant digits of a double are read back as that double *)
+Lemma fallback_exact : forall f x temp,
+  is_double x -> fallback_text f x = Ok temp ->
+  exists r y, read_number (drop_blank temp) = Some r /\ dec_to_dbl r = Some y /\ isclose y x = true.
+Proof.
+  intros f x temp Hd H. unfold fallback_text in H.
+  destruct (g_body 17 x) as [b|] eqn:G; [|discriminate]. cbn [bind] in H. inversion H; subst temp; clear H.
+  unfold zfill. set (z := zero_padding f - _ - _).
+  destruct Hd as (Hm & He & Hf).
+  destruct (Z.eq_dec (dman x) 0) as [Z0|NZ].
+  - (* zero *)
+    unfold g_body in G. rewrite Z0 in G. cbn in G. inversion G; subst b.
+    destruct (zeros_digit_head z "0" "0"%char "" eq_refl eq_refl) as (c' & rest' & Ez & Hc').
+    destruct (drop_blank_signed (f_sign f) (dneg x) _ c' rest' Ez Hc') as (Ed & Hsg & Hneg).
+    rewrite Ed.
+    assert (Ad : all_digits (zeros z ++ "0") = true) by (rewrite all_digits_app, all_digits_zeros; reflexivity).
+    assert (Nd : zeros z ++ "0" <> "") by (rewrite Ez; discriminate).
+    unfold sign_str. rewrite (read_int_text (read_sign (f_sign f) (dneg x)) _ Hsg Ad Nd). rewrite Hneg.
+    rewrite digits_val_zeros_app. change (digits_val "0") with 0.
+    eexists. exists (mkD (dneg x) 0 0). split; [reflexivity|]. split; [reflexivity|].
+    apply isclose_of_Q; [reflexivity|]. unfold dabs. cbn [dman dexp]. rewrite Z0. ring.
+  - assert (Pm : 0 < dman x) by lia.
+    destruct (g_branch_error 17 x b (f_sign f) z ltac:(lia) Pm G) as (M & k & R & B).
+    change ((if 17 =? 0 then 1 else 17) - 1) with 16 in B.
+    destruct (mk_round_near_double (dneg x) M k x (conj Hm (conj He Hf)) Pm B) as (y & MR & Sy & _ & Vy).
+    exists (dneg x, M, k), y. split; [exact R|]. split; [exact MR|].
+    apply isclose_of_Q; assumption.
+Qed.
+
+Lemma first_word_plain : forall s tail,
+  s <> "" -> no_ws s = true -> (tail = "" \/ starts_ws tail = true) -> first_word (s ++ tail) = s.
+Proof.
+  intros s tail N W T. unfold first_word.
+  destruct s as [|a u]; [congruence|]. cbn in W. apply andb_true_iff in W.
+  destruct W as [Ha Hu]. apply negb_true_iff in Ha. cbn [append lstrip_ws]. rewrite Ha.
+  change (String a (u ++ tail)) with (String a u ++ tail). apply take_word_app; [|exact T].
+  cbn. now rewrite Ha, Hu.
+Qed.
+
+Lemma followed_ok_finish : forall nd f temp, followed_ok (pad_nodes nd) ->
+  exists tail, finish nd f temp = temp ++ tail /\ (tail = "" \/ starts_ws tail = true).
+Proof.
+  intros nd f temp [E|(p & rest & E & S & N)]; apply finish_tail.
+  - now left.
+  - right. exists p, rest. split; [exact E|]. split; [exact S|]. inversion N; assumption.
+Qed.
+
+Lemma followed_ok_pad_text : forall l, followed_ok l -> pad_text l = "" \/ starts_ws (pad_text l) = true.
+Proof.
+  intros l [->|(p & rest & -> & S & N)]; [now left|right].
+  rewrite pad_text_cons. apply starts_ws_app. inversion N as [|? ? Hp _]; subst.
+  destruct p as [s|s]; [|discriminate]. cbn in S. apply andb_true_iff in S. destruct S as [S _].
+  apply all_ws_starts; [exact S | exact Hp].
+Qed.
+
+Lemma make_node_float_inv : forall tok pad np nd,
+  make_node KFloat tok pad np = Ok nd ->
+  n_isfloat nd = true /\ n_tok nd = tok /\
+  ((n_value nd = None /\ n_og nd = None) \/
+   exists t xo, tok = TText t /\ fortran_float t = Ok xo /\ n_og nd = Some (VFlt xo)).
+Proof.
+  intros tok pad np nd H. unfold make_node in H. destruct tok as [| |t].
+  - inversion H; subst; cbn. auto.
+  - inversion H; subst; cbn. auto.
+  - destruct (fortran_float t) as [xo|] eqn:F; [|discriminate]. cbn in H. inversion H; subst; cbn.
+    split; [reflexivity|]. split; [reflexivity|]. right. exists t, xo. auto.
+Qed.
+
+Lemma fortran_float_inv : forall t xo, fortran_float t = Ok xo ->
+  exists sc, fortran_scan t = Some sc /\ dec_to_dbl (scan_neg sc, scan_mant sc, scan_k sc) = Some xo.
+Proof.
+  intros t xo H. unfold fortran_float in H. destruct (fortran_scan t) as [sc|]; [|discriminate].
+  exists sc. split; [reflexivity|]. unfold dec_to_dbl.
+  destruct (mk_round _ _ _) as [y|]; [inversion H; reflexivity | discriminate].
+Qed.
+
+Lemma read_no_ws : forall w r, read_number w = Some r -> no_ws w = true /\ w <> "".
+Proof.
+  intros w r H. unfold read_number in H.
+  destruct (scan_number letter_eEdD w) as [sc|] eqn:S; [|discriminate].
+  apply (scan_no_ws letter_eEdD w sc); [|exact S].
+  intros a Ha. unfold letter_eEdD, letter_eE in Ha.
+  repeat (apply orb_true_iff in Ha; destruct Ha as [Ha|Ha]); apply Ascii.eqb_eq in Ha; subst; reflexivity.
+Qed.
+
+Lemma dec_to_dbl_int : forall n, dec_to_dbl (n <? 0, Z.abs n, 0) = to_dbl (VInt n).
+Proof. intros n. unfold dec_to_dbl, to_dbl, dec_num, dec_den. cbn. now rewrite Z.mul_1_r. Qed.
+
+(* THE FLOAT THEOREM: whatever token (or none, or a jump) the node was made from and whatever padding
+   follows it, for every finite double x: what format() writes after node.value = x is a number that is
+   read back as a double y that math.isclose(rel_tol=1e-9) accepts as x *)
+Theorem float_node_close : forall tok pad np nd x s,
+  make_node KFloat tok pad np = Ok nd ->
+  is_double x ->
+  followed_ok (pad_nodes (set_value nd (VFlt x))) ->
+  format (set_value nd (VFlt x)) = Ok s ->
+  exists y, reads_as s y /\ isclose y x = true.
+Proof.
+  intros tok pad np nd x s MK Hd FO H.
+  destruct (make_node_float_inv tok pad np nd MK) as (Hf & Htok & Hog).
+  set (nd' := set_value nd (VFlt x)) in *.
+  assert (Hv : n_value nd' = Some (VFlt x)) by reflexivity.
+  assert (Hf' : n_isfloat nd' = true) by exact Hf.
+  assert (Hog' : n_og nd' = n_og nd) by reflexivity.
+  assert (Htok' : n_tok nd' = tok) by exact Htok.
+  unfold format in H.
+  destruct (value_changed nd') as [ch|] eqn:VC; [|discriminate]. cbn [bind] in H.
+  destruct ch; cbn [negb] in H.
+  - (* the value changed *)
+    rewrite Hv in H.
+    destruct (match reverse_formatting nd' with Some f => (true, f) | None => (false, default_fmt) end)
+      as [reversed f] eqn:RF.
+    destruct (render_temp nd' reversed f (VFlt x)) as [temp|] eqn:RT; [|discriminate].
+    cbn [bind] in H. inversion H; subst s; clear H.
+    destruct (followed_ok_finish nd' f temp FO) as (tail & -> & T).
+    unfold render_temp in RT.
+    destruct (can_float_to_int nd' f (VFlt x)) as [toint|] eqn:CF; [|discriminate]. cbn [bind] in RT.
+    rewrite Hf' in RT. cbn [negb orb] in RT. destruct toint.
+    + (* written as the nearest integer *)
+      inversion RT; subst temp; clear RT.
+      unfold can_float_to_int in CF. rewrite Hf' in CF. cbn [andb] in CF.
+      destruct (as_int f); cbn [negb] in CF; [|discriminate].
+      set (n := py_round (VFlt x)) in *.
+      destruct (to_dbl (VInt n)) as [a|] eqn:TA; [|discriminate]. cbn [to_dbl] in CF.
+      injection CF as CL. exists a. split; [|exact CL].
+      exists (n <? 0, Z.abs n, 0). split; [|rewrite dec_to_dbl_int; exact TA].
+      unfold written_number. destruct (no_ws_fmt_d (f_sign f) (zero_padding f) n) as [N W].
+      rewrite first_word_drop_blank by assumption. apply fmt_d_exact.
+    + (* the float branch *)
+      cbn [to_dbl] in RT.
+      destruct (float_text_cases reversed f x temp RT) as [RB|FB].
+      * destruct (reads_back_true temp x RB) as (sc & y & FS & DD & CL).
+        destruct (fortran_scan_read _ sc FS) as (RN & W & N).
+        exists y. split; [|exact CL]. exists (scan_neg sc, scan_mant sc, scan_k sc). split; [|exact DD].
+        unfold written_number. rewrite first_word_strip by assumption. exact RN.
+      * destruct (fallback_exact f x temp Hd FB) as (r & y & RN & DD & CL).
+        destruct (read_no_ws _ r RN) as [W N].
+        exists y. split; [|exact CL]. exists r. split; [|exact DD].
+        unfold written_number. rewrite first_word_drop_blank by assumption. exact RN.
+  - (* unchanged: the old token is kept; the value is within the tolerance of the token's *)
+    inversion H; subst s; clear H.
+    unfold value_changed in VC. rewrite Hv, Hog', Hf' in VC.
+    destruct Hog as [[_ Ho]|(t & xo & -> & FF & Ho)]; rewrite Ho in VC; [discriminate|].
+    cbn [to_dbl] in VC. injection VC as CL. apply negb_false_iff in CL.
+    rewrite Htok. cbn [tok_text].
+    destruct (fortran_float_inv t xo FF) as (sc & FS & DD).
+    destruct (fortran_scan_read t sc FS) as (RN & W & N).
+    exists xo. split; [|rewrite isclose_sym; exact CL].
+    exists (scan_neg sc, scan_mant sc, scan_k sc). split; [|exact DD].
+    unfold written_number. rewrite first_word_plain; [exact RN | exact N | exact W |].
+    destruct (followed_ok_pad_text _ FO) as [E|E]; [left | right]; exact E.
+Qed.
+
+(* ------------------------------------------------------------------------------------------ *)
+(* 14. integer nodes, converted nodes, the int(round()) branch, the loop *)
+
+Lemma exact_int_scaled : forall n mn, mn <= 0 -> d_scaled (exact_dbl (VInt n)) mn = n * 2 ^ (- mn).
+Proof.
+  intros n mn H. unfold d_scaled, exact_dbl. cbn [dneg dman dexp]. replace (0 - mn) with (- mn) by lia.
+  destruct (n <? 0) eqn:E; [apply Z.ltb_lt in E | apply Z.ltb_ge in E]; nia.
+Qed.
+
+Lemma py_eq_int : forall n i, py_eq (VInt n) (VInt i) = true -> n = i.
+Proof.
+  intros n i H. unfold py_eq, d_eqb in H.
+  change (dexp (exact_dbl (VInt n))) with 0 in H. change (dexp (exact_dbl (VInt i))) with 0 in H.
+  change (Z.min 0 0) with 0 in H.
+  rewrite !(exact_int_scaled _ 0) in H by lia. cbn in H. apply Z.eqb_eq in H. lia.
+Qed.
+
+(* two integers that both equal (exactly) the same float are the same integer *)
+Lemma py_eq_int_float : forall n i xo,
+  py_eq (VInt n) (VFlt xo) = true -> py_eq (VInt i) (VFlt xo) = true -> n = i.
+Proof.
+  intros n i xo H1 H2. unfold py_eq, d_eqb in *.
+  change (dexp (exact_dbl (VInt n))) with 0 in H1. change (dexp (exact_dbl (VInt i))) with 0 in H2.
+  change (exact_dbl (VFlt xo)) with xo in H1, H2.
+  set (mn := Z.min 0 (dexp xo)) in *.
+  rewrite exact_int_scaled in H1, H2 by (unfold mn; lia).
+  apply Z.eqb_eq in H1. apply Z.eqb_eq in H2.
+  pose proof (Z.pow_pos_nonneg 2 (- mn) ltac:(lia) ltac:(unfold mn; lia)). nia.
+Qed.
+
+Lemma py_int_of_string_read : forall t i, py_int_of_string t = Ok i ->
+  exists neg M, read_number t = Some (neg, M, 0) /\ (if neg then - M else M) = i /\ no_ws t = true /\ t <> "".
+Proof.
+  intros t i H. unfold py_int_of_string in H.
+  destruct (take_sign t) as [sg r] eqn:TS. destruct (take_sign_spec _ _ _ TS) as [Et Hsg].
+  destruct (span_digits r) as [d u] eqn:SD. destruct (span_digits_spec _ _ _ SD) as [Er Ad].
+  destruct (andb (negb (String.eqb d "")) (String.eqb u "")) eqn:C; [|discriminate].
+  apply andb_true_iff in C. destruct C as [C1 C2]. apply negb_true_iff in C1.
+  apply String.eqb_neq in C1. apply String.eqb_eq in C2. subst u. rewrite sapp_nil_r in Er. subst r.
+  assert (R : read_number t = Some (neg_flag sg, digits_val d, 0)).
+  { rewrite Et. unfold sign_str. apply (read_int_text sg d Hsg Ad C1). }
+  exists (neg_flag sg), (digits_val d). split; [exact R|]. split.
+  - inversion H. unfold neg_flag. destruct sg as [a|]; [destruct (Ascii.eqb a "-")|]; reflexivity.
+  - exact (read_no_ws t _ R).
+Qed.
+
+Lemma make_node_int_inv : forall tok pad np nd,
+  make_node KInt tok pad np = Ok nd ->
+  n_isfloat nd = false /\ n_tok nd = tok /\
+  ((n_value nd = None /\ n_og nd = None) \/
+   exists t i, tok = TText t /\ py_int_of_string t = Ok i /\ n_og nd = Some (VInt i)).
+Proof.
+  intros tok pad np nd H. unfold make_node in H. destruct tok as [| |t].
+  - inversion H; subst; cbn. auto.
+  - inversion H; subst; cbn. auto.
+  - destruct (py_int_of_string t) as [i|] eqn:F; [|discriminate]. cbn in H. inversion H; subst; cbn.
+    split; [reflexivity|]. split; [reflexivity|]. right. exists t, i. auto.
+Qed.
+
+Lemma followed_ok_weak : forall l, followed_ok l ->
+  l = [] \/ exists p rest, l = p :: rest /\ pnode_is_space p = true /\ Forall (fun q => pnode_text q <> "") rest.
+Proof.
+  intros l [E|(p & rest & E & S & N)]; [now left|right].
+  exists p, rest. split; [exact E|]. split; [exact S|]. inversion N; assumption.
+Qed.
+
+(* THE INTEGER THEOREM: an integer node writes the integer that was set, digit for digit, whatever token
+   it was made from *)
+Theorem int_node_exact_full : forall tok pad np nd n s,
+  make_node KInt tok pad np = Ok nd ->
+  followed_ok (pad_nodes (set_value nd (VInt n))) ->
+  format (set_value nd (VInt n)) = Ok s ->
+  exists neg M, written_number s = Some (neg, M, 0) /\ (if neg then - M else M) = n.
+Proof.
+  intros tok pad np nd n s MK FO H.
+  destruct (make_node_int_inv tok pad np nd MK) as (Hf & Htok & Hog).
+  destruct (value_changed (set_value nd (VInt n))) as [[|]|] eqn:VC.
+  - exists (n <? 0), (Z.abs n). split.
+    + apply (int_node_exact nd n s Hf VC H). apply followed_ok_weak. exact FO.
+    + destruct (n <? 0) eqn:E; [apply Z.ltb_lt in E | apply Z.ltb_ge in E]; lia.
+  - unfold format in H. rewrite VC in H. cbn [bind negb] in H. inversion H; subst s; clear H.
+    unfold value_changed in VC.
+    assert (Hv : n_value (set_value nd (VInt n)) = Some (VInt n)) by reflexivity.
+    assert (Ho : n_og (set_value nd (VInt n)) = n_og nd) by reflexivity.
+    assert (Hf' : n_isfloat (set_value nd (VInt n)) = false) by exact Hf.
+    rewrite Hv, Ho, Hf' in VC.
+    destruct Hog as [[_ Hn]|(t & i & -> & PI & Hn)]; rewrite Hn in VC; [discriminate|].
+    injection VC as CL. apply negb_false_iff in CL. apply py_eq_int in CL. subst i.
+    rewrite Htok. cbn [tok_text].
+    destruct (py_int_of_string_read t n PI) as (neg & M & R & V & W & N).
+    exists neg, M. split; [|exact V].
+    unfold written_number. rewrite first_word_plain; [exact R | exact N | exact W |].
+    destruct (followed_ok_pad_text _ FO) as [E|E]; [left | right]; exact E.
+  - unfold format in H. rewrite VC in H. discriminate.
+Qed.
+
+(* converted nodes (a float token turned into an integer node by _convert_to_int) *)
+Lemma make_node_conv_inv : forall tok pad np nd,
+  make_node KConv tok pad np = Ok nd ->
+  n_isfloat nd = false /\ n_tok nd = tok /\
+  ((n_value nd = None /\ n_og nd = None) \/
+   exists t xo i, tok = TText t /\ fortran_float t = Ok xo /\ conv_int t = Ok i /\ n_og nd = Some (VFlt xo)).
+Proof.
+  intros tok pad np nd H. unfold make_node in H. destruct tok as [| |t].
+  - inversion H; subst; cbn. auto.
+  - inversion H; subst; cbn. auto.
+  - destruct (fortran_float t) as [xo|] eqn:F; [|discriminate]. cbn [bind] in H.
+    destruct (conv_int t) as [i|] eqn:CI; [|discriminate]. cbn [bind] in H. inversion H; subst; cbn.
+    split; [reflexivity|]. split; [reflexivity|]. right. exists t, xo, i. auto.
+Qed.
+
+(* either the integer is written digit for digit, or the unchanged short cut was taken: the old token is
+   kept, and that happens exactly when the new integer equals (as Python compares an int with a float)
+   the float the token was first read as *)
+Theorem conv_node_cases : forall tok pad np nd n s,
+  make_node KConv tok pad np = Ok nd ->
+  followed_ok (pad_nodes (set_value nd (VInt n))) ->
+  format (set_value nd (VInt n)) = Ok s ->
+  written_number s = Some (n <? 0, Z.abs n, 0) \/
+  exists t xo, tok = TText t /\ fortran_float t = Ok xo /\ py_eq (VInt n) (VFlt xo) = true /\
+               s = t ++ pad_text (pad_nodes (set_value nd (VInt n))).
+Proof.
+  intros tok pad np nd n s MK FO H.
+  destruct (make_node_conv_inv tok pad np nd MK) as (Hf & Htok & Hog).
+  destruct (value_changed (set_value nd (VInt n))) as [[|]|] eqn:VC.
+  - left. apply (int_node_exact nd n s Hf VC H). apply followed_ok_weak. exact FO.
+  - right. unfold format in H. rewrite VC in H. cbn [bind negb] in H. inversion H; subst s; clear H.
+    unfold value_changed in VC.
+    assert (Hv : n_value (set_value nd (VInt n)) = Some (VInt n)) by reflexivity.
+    assert (Ho : n_og (set_value nd (VInt n)) = n_og nd) by reflexivity.
+    assert (Hf' : n_isfloat (set_value nd (VInt n)) = false) by exact Hf.
+    rewrite Hv, Ho, Hf' in VC.
+    destruct Hog as [[_ Hn]|(t & xo & i & -> & FF & CI & Hn)]; rewrite Hn in VC; [discriminate|].
+    injection VC as CL. apply negb_false_iff in CL.
+    exists t, xo. repeat split; try assumption.
+    rewrite Htok. reflexivity.
+  - unfold format in H. rewrite VC in H. discriminate.
+Qed.
+
+(* under the side condition that the token's float is exactly the token's integer (every integer below
+   2^53), the short cut is only taken for the token's own integer *)
+Theorem conv_node_exact_partial : forall t pad np nd n s xo i,
+  make_node KConv (TText t) pad np = Ok nd ->
+  fortran_float t = Ok xo -> conv_int t = Ok i -> py_eq (VInt i) (VFlt xo) = true ->
+  followed_ok (pad_nodes (set_value nd (VInt n))) ->
+  format (set_value nd (VInt n)) = Ok s ->
+  written_number s = Some (n <? 0, Z.abs n, 0) \/
+  (n = i /\ s = t ++ pad_text (pad_nodes (set_value nd (VInt n)))).
+Proof.
+  intros t pad np nd n s xo i MK FF CI SC FO H.
+  destruct (conv_node_cases _ pad np nd n s MK FO H) as [E|(t' & xo' & Et & FF' & PE & Es)]; [now left|right].
+  inversion Et; subst t'. rewrite FF in FF'. inversion FF'; subst xo'.
+  split; [exact (py_eq_int_float n i xo PE SC) | exact Es].
+Qed.
+
+(* ... and without it the integer that was set is lost: token 1000000000000000003, new value 10^18 *)
+Lemma conv_node_exact_refuted :
+  exists t pad n s r,
+    render KConv (TText t) pad false (VInt n) = Ok s /\
+    written_number s = Some r /\ r <> (n <? 0, Z.abs n, 0) /\ s = t ++ " ".
+Proof.
+  exists "1000000000000000003", (Some [PStr " "]), 1000000000000000000, "1000000000000000003 ",
+         (false, 1000000000000000003, 0).
+  split; [vm_compute; reflexivity|]. split; [vm_compute; reflexivity|]. split; [discriminate | reflexivity].
+Qed.
+
+(* the int(round(value)) branch: the nearest integer, not the truncated one, digit for digit *)
+Lemma round_branch_exact : forall nd reversed f x temp,
+  n_isfloat nd = true -> can_float_to_int nd f (VFlt x) = Ok true ->
+  render_temp nd reversed f (VFlt x) = Ok temp ->
+  read_number (drop_blank temp)
+  = Some (py_round (VFlt x) <? 0, Z.abs (py_round (VFlt x)), 0).
+Proof.
+  intros nd reversed f x temp Hf CF H. unfold render_temp in H. rewrite CF in H. cbn [bind] in H.
+  rewrite orb_true_r in H. inversion H. apply fmt_d_exact.
+Qed.
+
+Lemma py_round_nearest : forall x, 0 <= dman x ->
+  (Qabs (inject_Z (py_round (VFlt x)) - dval x) <= 1 # 2)%Q.
+Proof.
+  intros x Hm. unfold py_round. rewrite dval_dabs.
+  set (a := if 0 <=? dexp x then dman x * 2 ^ dexp x else rhe (dman x) (2 ^ (- dexp x))).
+  assert (A : (Qabs (inject_Z a - dabs x) <= 1 # 2)%Q).
+  { unfold a, dabs. destruct (0 <=? dexp x) eqn:E.
+    - apply Z.leb_le in E. rewrite inject_Z_mult, <- (p2_inject _ E).
+      setoid_replace (inject_Z (dman x) * (2 # 1) ^ dexp x - inject_Z (dman x) * (2 # 1) ^ dexp x)%Q with 0%Q by ring.
+      cbn. unfold Qle; cbn; lia.
+    - apply Z.leb_gt in E.
+      assert (Pb : 0 < 2 ^ (- dexp x)) by (apply Z.pow_pos_nonneg; lia).
+      pose proof (rhe_bound_Q (dman x) (2 ^ (- dexp x)) Pb) as [B1 B2].
+      rewrite <- (p2_inject (- dexp x)) in B1, B2 by lia.
+      assert (I : ((2 # 1) ^ dexp x * (2 # 1) ^ (- dexp x) == 1)%Q).
+      { rewrite <- Qpower_plus by discriminate. rewrite Z.add_opp_diag_r. reflexivity. }
+      assert (P1 : (0 < (2 # 1) ^ dexp x)%Q) by (apply Qpower_0_lt; reflexivity).
+      assert (P2 : (0 < (2 # 1) ^ (- dexp x))%Q) by (apply Qpower_0_lt; reflexivity).
+      set (r := inject_Z (rhe (dman x) (2 ^ (- dexp x)))) in *. set (m := inject_Z (dman x)) in *.
+      set (u := ((2 # 1) ^ dexp x)%Q) in *. set (v := ((2 # 1) ^ (- dexp x))%Q) in *.
+      apply Qabs_Qle_condition. split.
+      + assert (- v <= (2 # 1) * (r - m * u) * v)%Q.
+        { setoid_replace ((2 # 1) * (r - m * u) * v)%Q with ((2 # 1) * (r * v - m * (u * v)))%Q by ring.
+          rewrite I. lra. }
+        nra.
+      + assert ((2 # 1) * (r - m * u) * v <= v)%Q.
+        { setoid_replace ((2 # 1) * (r - m * u) * v)%Q with ((2 # 1) * (r * v - m * (u * v)))%Q by ring.
+          rewrite I. lra. }
+        nra. }
+  destruct (dneg x); cbn [sgnQ].
+  - rewrite inject_Z_opp.
+    setoid_replace (- inject_Z a - (-1 # 1) * dabs x)%Q with (- (inject_Z a - dabs x))%Q by ring.
+    rewrite Qabs_opp. exact A.
+  - setoid_replace (inject_Z a - 1 * dabs x)%Q with (inject_Z a - dabs x)%Q by ring. exact A.
+Qed.
+
+(* no digits are added when the precision of the old token is enough *)
+Lemma no_extra_digits : forall reversed f x t0,
+  format_float reversed f x (precision f) = Ok t0 -> reads_back t0 x = Ok true ->
+  float_text reversed f x = Ok t0.
+Proof.
+  intros reversed f x t0 F R. unfold float_text. rewrite F. cbn [bind].
+  assert (L : prec_loop reversed f x (Z.to_nat (17 - precision f)) (precision f) t0 = Ok t0).
+  { destruct (Z.to_nat (17 - precision f)); cbn [prec_loop]; [reflexivity|]. rewrite R. reflexivity. }
+  rewrite L. cbn [bind]. rewrite R. reflexivity.
+Qed.
+
+(* the loop adds one digit at a time and stops at the first precision whose text reads back *)
+Lemma prec_loop_spec : forall reversed f x fuel p t0 temp,
+  format_float reversed f x p = Ok t0 ->
+  prec_loop reversed f x fuel p t0 = Ok temp ->
+  exists j, (j <= fuel)%nat /\ format_float reversed f x (p + Z.of_nat j) = Ok temp /\
+    (forall i ti, (i < j)%nat -> format_float reversed f x (p + Z.of_nat i) = Ok ti -> reads_back ti x = Ok false) /\
+    ((j < fuel)%nat -> reads_back temp x = Ok true).
+Proof.
+  intros reversed f x fuel. induction fuel as [|k IH]; intros p t0 temp F H.
+  - cbn in H. inversion H; subst. exists O. rewrite Z.add_0_r. repeat split; [lia | exact F | lia | lia].
+  - cbn [prec_loop] in H. destruct (reads_back t0 x) as [[|]|] eqn:R; cbn [bind] in H; [| |discriminate].
+    + inversion H; subst. exists O. rewrite Z.add_0_r. repeat split; [lia | exact F | lia | intros; exact R].
+    + destruct (format_float reversed f x (p + 1)) as [t1|] eqn:F1; [|discriminate]. cbn [bind] in H.
+      destruct (IH (p + 1) t1 temp F1 H) as (j & J1 & J2 & J3 & J4).
+      exists (S j). replace (p + Z.of_nat (S j)) with (p + 1 + Z.of_nat j) by lia.
+      repeat split; [lia | exact J2 | | intros; apply J4; lia].
+      intros i ti Hi Fi. destruct i as [|i'].
+      * rewrite Z.add_0_r in Fi. rewrite F in Fi. inversion Fi; subst. exact R.
+      * apply (J3 i' ti); [lia|]. replace (p + 1 + Z.of_nat i') with (p + Z.of_nat (S i')) by lia. exact Fi.
 Qed.
